@@ -18,6 +18,7 @@ import Pog.Lemmas.ConvRound
     no_mapping_falls_through          : `get_mapping()` None/empty, or property absent ⇒ metadata ignored          (full)
     firstmatch_lossless               : the decoded variant re-encodes to the payload                                 ✗
         — `Union[V1{a}, V2{a,b}]`: `{a,b}` ↦ `V1(a)`, `b` is dropped;  `Union[str, int]`: `5` ↦ `"5"`   (counterexamples)
+    discriminated_independent_of_members : usable mapping + property present ⇒ the member LIST is irrelevant (any order, any set)  (full)
     union_result_is_one_members       : an ok result is None / ONE listed member's / the mapped class's / the dict itself (full)
     union_of_classes_yields_listed_class : union of classes, dict payload ⇒ instance of a listed class, from its own hook   (full)
         — holds when every dataclass variant listed BEFORE the payload's own variant rejects it          (partial;
@@ -97,6 +98,33 @@ example : structF Codecs.exec 4 decls (.union members (some disc))
 example : structF Codecs.exec 4 decls (.union members (some { disc with mapping := none }))
     (.obj [("kind".toList, .str "two".toList), ("a".toList, .int 1)])
       = .ok (.inst "V1".toList [("a".toList, .int 1)]) := by decide
+
+/-- With a usable mapping and the discriminator property present in the payload, the LIST of members plays no part at all:
+    any two unions carrying the same discriminator metadata decode the payload identically - reordering, adding or removing
+    members (even the mapped class itself) cannot change the variant, turn an error into a guess or a guess into an error. -/
+theorem discriminated_independent_of_members (c : Codecs) (n : Nat) (decls : Decls) (args args' : List Ty) (d : Disc)
+    (kvs : List (Str × JsonV)) (m : List (Str × Str)) (dv : JsonV)
+    (hm : d.mapping = some m) (hne : m ≠ []) (hp : aget kvs d.prop = some dv) :
+    structF c (n + 1) decls (.union args (some d)) (.obj kvs) = structF c (n + 1) decls (.union args' (some d)) (.obj kvs) := by
+  rw [structF_union, structF_union]
+  by_cases hmapped : ∃ s variant, dv = .str s ∧ aget m s = some variant
+  · obtain ⟨s, variant, rfl, hv⟩ := hmapped
+    rw [structUnion_disc_mapped _ args d kvs m s variant hm hp hv, structUnion_disc_mapped _ args' d kvs m s variant hm hp hv]
+  · have hun : ∀ s, dv = .str s → aget m s = none := by
+      intro s hs
+      cases h : aget m s with
+      | none => rfl
+      | some variant => exact absurd ⟨s, variant, hs, h⟩ hmapped
+    rw [structUnion_disc_unmapped _ args d kvs m dv hm hne hp hun, structUnion_disc_unmapped _ args' d kvs m dv hm hne hp hun]
+
+/-- Non-vacuity and contrast: the same payload, members reversed - with the mapping both orders give `V2`; without it the
+    order decides (`V1` first: `V1`; reversed: `V3` rejects, `V2` accepts). -/
+example : structF Codecs.exec 4 decls (.union members.reverse (some disc))
+      (.obj [("kind".toList, .str "two".toList), ("a".toList, .int 1), ("b".toList, .int 2)])
+    = .ok (.inst "V2".toList [("a".toList, .int 1), ("b".toList, .int 2)])
+  ∧ structF Codecs.exec 4 decls (.union members none) (.obj [("a".toList, .int 1), ("b".toList, .int 2)])
+    ≠ structF Codecs.exec 4 decls (.union members.reverse none) (.obj [("a".toList, .int 1), ("b".toList, .int 2)]) := by
+  decide
 
 /-! ## every successful union decode is ONE member's decode of the whole payload -/
 
